@@ -140,7 +140,7 @@ def shards(tier):
 
 
 def run_shard(spec, ctx):
-    run_given(DEC.cases(thorough=ctx.thorough), body, ctx, ctx.pick(120, 4500))
+    run_given(DEC.cases(thorough=ctx.thorough), body, ctx, ctx.pick(120, 440))
 
 
 def replay(data, col):
